@@ -50,6 +50,21 @@ func HashName(label string, ha uint8, iter uint16, salt string) string {
 	return toBase32(nsec3)
 }
 
+// hashLabel returns the hash label of an (upper cased) owner name as the text it denotes: a zone
+// file or a program may write an octet of it as \DDD or \c, which ToUpper leaves alone.
+func hashLabel(s string) string {
+	if strings.IndexByte(s, '\\') < 0 {
+		return s
+	}
+	b := make([]byte, 0, len(s))
+	for len(s) > 0 {
+		c, _, n := nextOctet(s)
+		b = append(b, c)
+		s = s[n:]
+	}
+	return strings.ToUpper(string(b))
+}
+
 // Cover returns true if a name is covered by the NSEC3 record.
 func (rr *NSEC3) Cover(name string) bool {
 	nameHash := HashName(name, rr.Hash, rr.Iterations, rr.Salt)
@@ -61,7 +76,7 @@ func (rr *NSEC3) Cover(name string) bool {
 	if len(labelIndices) < 2 {
 		return false
 	}
-	ownerHash := owner[:labelIndices[1]-1]
+	ownerHash := hashLabel(owner[:labelIndices[1]-1])
 	ownerZone := owner[labelIndices[1]:]
 	if !IsSubDomain(ownerZone, strings.ToUpper(name)) { // name is outside owner zone
 		return false
@@ -96,7 +111,7 @@ func (rr *NSEC3) Match(name string) bool {
 	if len(labelIndices) < 2 {
 		return false
 	}
-	ownerHash := owner[:labelIndices[1]-1]
+	ownerHash := hashLabel(owner[:labelIndices[1]-1])
 	ownerZone := owner[labelIndices[1]:]
 	if !IsSubDomain(ownerZone, strings.ToUpper(name)) { // name is outside owner zone
 		return false
